@@ -165,6 +165,7 @@ FIXED = [
  'fixed: property=C10 ea96ed5 ar writer: a member refused with ARCHIVE_WARN left the previous member pad state; the following finish_entry wrote a stray newline and every later member became unreadable',
  'fixed: property=C10 a302640 warc writer: an entry refused for its name length left w->typ set; finish_entry appended an end-of-record marker to the previous record (and the header string leaked)',
  'fixed: property=C10 890a482 gnutar writer: the K/L long-name headers of an entry refused for its file type stayed in the archive and were applied to the next entry',
+ 'fixed: property=C10 edecab6 pax writer: build_ustar_entry_name() can return 256 characters + NUL but its three destination buffers on the stack of archive_write_pax_header() were 256 bytes: one-byte stack-buffer-overflow for a 155-byte prefix + "//" + 100-byte name (found under ASan by the C10 path probes)',
  'fixed: property=C10 1911fd7 gnutar writer: same orphaned long-name header when a numeric field (rdev, uid, size) of the entry itself did not fit',
 ]
 K['fixed'] = [x for x in K.get('fixed', []) if not any(x.split()[2] == y.split()[2] for y in FIXED)] + FIXED
